@@ -178,7 +178,8 @@ pub fn wl_mutex<M: RawMutex + Send + Sync + 'static>(seed: u64, n: usize, rounds
                         break;
                     }
                     let last = r == rounds;
-                    if !last && rng.below(10) < 2 {
+                    // every fourth run is heavy on the synchronous path (try_lock racing the queue)
+                    if !last && (rng.below(10) < 2 || (seed % 4 == 0 && rng.below(2) == 0)) {
                         let c0 = run.now();
                         let got = m.try_lock();
                         let c1 = run.now();
@@ -483,7 +484,8 @@ fn wl_semaphore_inner<S: SemOps>(sem: S, seed: u64, n: usize, rounds: usize, fai
                         break;
                     }
                     let last = r == rounds;
-                    let c = rng.below(10);
+                    // every fourth run is heavy on the synchronous path (try_acquire racing the queue)
+                    let c = if seed % 4 == 0 && rng.below(2) == 0 { 0 } else { rng.below(10) };
                     if !last && c == 0 {
                         let k = rng.below(total + 1);
                         let c0 = run.now();
@@ -2050,7 +2052,9 @@ fn run_workload_inner(name: &str, seed: u64, ctx: &mut Ctx, st: &mut ConcStats) 
             }
         }
         "semaphore" => {
-            let total = 1 + rng.below(3);
+            // a single permit in half of the fair runs: the semaphore is then an exclusive resource and the
+            // fairness oracle can use its stronger form
+            let total = if fair && rng.below(2) == 0 { 1 } else { 1 + rng.below(3) };
             let shared = rng.below(2) == 0;
             if spin {
                 wl_semaphore::<Spin>(seed, n, rounds, fair, total, shared, ctx, st)
